@@ -18,7 +18,7 @@ def run_mode(prop, tier, callee):
            ("MIR code calls a gcc-compiled callee generated from the same prototype, which records every argument as it sees it (and faults on a misaligned stack) and returns canned results that the MIR code stores back; engines: MIR_interp (ff-call trampolines), gen -O0..-O3")
     rep.coverage = dict(evaluations=st.get("evaluations", 0), distinct_nontrivial=res["nontrivial"],
                         rule="case = one prototype: every argument list of length <= 3 over 19 kinds (i8..u64, p, f, d, ld, blk0:24, blk1:16/8, blk2:16/8, blk3:16, blk4:16) x {no result, i64}; ni in 0..8 ints x nd in 0..10 doubles x 3 orderings followed by every kind, an int and a double; "
-                             "12 single result types and the 4 two-register result pairs x 4 argument lists; 4 fixed parts x variadic tails of length <= 3 over {i64, d, ld, blk0, blk1, blk2}; return blocks x 5 argument lists; lists of 30, 64, 65, 66, 100 and 130 arguments (integers, doubles, mixed with long doubles). " + what +
+                             "12 single result types and the 4 two-register result pairs x 4 argument lists; 4 fixed parts x variadic tails of length <= 3 over {i64, d, ld, blk0, blk1, blk2}; return blocks x 5 argument lists; lists of 30, 64, 65, 66, 100 and 130 arguments (integers, doubles, mixed with long doubles); variadic tails of 1..14 integers / doubles / alternating / with long doubles behind an integer or a double. " + what +
                              "; evaluations = (prototype, engine) calls whose argument image, results and machine state were compared with the values derived from the prototype",
                         cases=res["done"], total_cases=res["ncases"], distinct_expected_images=len(res["outcomes"]), samples=res["samples"], exhaustive=res["exhaustive"])
     rep.assumptions = ["gcc -O1 on this machine defines the C ABI side of every call", "argument values are fixed per position and kind (high bits set in integers so that narrowing shows); the space of values is not explored"]
